@@ -264,6 +264,37 @@ CHECKS["C10"] = dict(
           "compared with the reference over all points, and SELECT * on every follower compared with the reference over the points routed to its partition. "
           "non-trivial: P >= 2 / follower holds >= 1 point"))
 
+def c11_finding_key(case):
+    """Two defects of zenodb's dependencies that are visible through cluster queries; only the 'rows' judgement of a
+    query can match (a wrong plan decision is never suppressed)."""
+    qs = case.get("queries") or []
+    if len(qs) != 1:
+        return None
+    q = qs[0]
+    if q.get("kind") != "rows" or q.get("agree") or q.get("local_err") or q.get("cluster_err"):
+        return None
+    sql = q.get("sql", "")
+    import re as _re
+    outer = sql[sql.rfind(")") + 1:] if ")" in sql and sql.rfind("GROUP BY") > sql.rfind(")") else sql
+    if q.get("plan") == "nonpushdown" and _re.search(r"GROUP BY _(,| |$)", sql) and "CROSSTAB(" in sql:
+        return "underscore-group-with-crosstab"
+    if q.get("plan") == "pushdown" and "GROUP BY LEN(" in outer and "rows locally" in q.get("diff", ""):
+        return "len-reported-one-to-one"
+    return None
+
+CHECKS["C11"] = dict(
+    stages=[dict(sub="c11", quick=16, thorough=320, shrink=["points"], parallel=16, shards=16)],
+    finding_key=c11_finding_key,
+    assumptions=["the reference semantics of a query is the local plan executed by a standalone database fed the same points (translation validation per generated query), not the Coq specification model: HAVING, subqueries, CROSSTAB, ORDER/LIMIT are outside DB.v",
+                 "rows are compared as multisets (values up to 1e-9 relative); ORDER BY is generated without LIMIT",
+                 "the structure given to the model's pushdown predicate is what the real sql.Parse and goexpr.WalkOneToOneParams report for the query; the plan kind is read off core.FormatSource of the leader's plan",
+                 "caught-up clusters only; incomplete answers (missing partitions reported by the leader) are asked again"],
+    trusted=_DB_TRUSTED + ["VerifPartitionFor (verif hook) exposes the leader's routing function"],
+    what_fails="a query planned for the cluster (whole-query pushdown, or partition-side pre-aggregation + leader-side group/having/order) returns other rows than the local plan over the same points, fails where the local plan works, or the planner pushes down / does not push down against the model of pushdownAllowed",
+    rule=("clusters of P in 1..4 partitions, partitionBy in {none, [d1], [d2], [d1,d2], [d3,d9]}, generated table/points as in C01; 40 generated SQL queries per cluster: field subsets / derived fields / _points, WHERE incl. string literals "
+          "containing 'group by', 'having', 'order by', 'limit' and IN-subqueries with their own GROUP BY/HAVING, GROUP BY dims / CONCAT / LEN / _ / * / period, CROSSTAB, HAVING, ORDER BY, FROM-subqueries (with and without ORDER/LIMIT). "
+          "two judgements per query: rows(cluster) = rows(local), and plan kind = pushdown_allowed(model). non-trivial: P >= 2 and the query could be planned"))
+
 CHECKS["C12"] = dict(
     stages=[dict(sub="c12", quick=16, thorough=160, shrink=["steps"], parallel=16, shards=16),
             dict(sub="c12", mode="db", quick=8, thorough=64, shrink=["steps"], parallel=16, shards=16, shard_min=8, seed_salt=77)],
